@@ -3,10 +3,15 @@ Confine.Dest (C19, part `Dest`) — EVERY place where a grcov run creates, write
 a file, as a destination expression over the run's inputs, and `dests : RunInput → List Dest`
 enumerating them. Followed program point by program point from
 
-* src/main.rs 340 (log file), 392-394 (`tempfile::tempdir`), 437-448 (worker dir `tmp/<i>`,
-  `create_dir`), 517-536 + 58-78 (`to_file_name`: the output path of each output type);
-* src/producer.rs 273-313 (`Archive::extract`: `create_dir_all(parent)`, zip: `File::create`,
-  dir: `symlink`), 341-377 (`<stem>_<n>.gcno/.gcda`, `hard_link` for n > 1), 416-436 (profiles);
+* src/main.rs 340 (log file), 392-399 (`tempfile::tempdir`; since fix 232bfd3 the directory
+  `tmp/inputs` into which the producer extracts / links, `create_dir`), 437-448 (worker dir
+  `tmp/<i>`, `create_dir`), 517-536 + 58-78 (`to_file_name`: the output path of each output type),
+  the end of `main` (`tmp_dir` is dropped: `remove_dir_all(tmp)`; NOT on the `process::exit(1)`
+  paths, which leave the temp dir behind);
+* src/producer.rs 315-346 (`Archive::extract`: `create_dir_all(parent)`, zip: `File::create`,
+  dir: `symlink`), 375-446 (`<stem>_<n>.gcno/.gcda`, `hard_link` for n > 1), 467-490 (profiles):
+  the destination is `tmp_dir.join(format!("{}_{}.{}", stem, n, ext))` with `tmp_dir = tmp/inputs`
+  and `stem` the STRING `clean_path(name.with_extension(""))` of the listed name;
 * src/lib.rs 171-179 (`clean_working_dir`), 228-284 (gcov output path
   `working_dir.join(gcno_path.file_name() + ext)`, `remove_file`; `WalkDir` entries);
 * src/gcov.rs 36-66 (`gcov <gcno> -i` with `current_dir(working_dir)`: the tool writes into its cwd);
@@ -180,9 +185,16 @@ def walkEntry (wd : Path) (names : List Bytes) : Path := wd ++ names.map .normal
 removed again (`RemoveOnDrop`, fix 2cb069b) on every way out of `llvm_profiles_to_lcov` -/
 def profdataPath (wd : Path) : Path := join wd [.normal bGrcovProfdata]
 
-/-- producer.rs 345/358/369/432: `tmp_dir.join(format!("{}_{}.{}", stem, n, ext))` — the entry's
-components with only the last name changed (the existing `Confine` destination) -/
+/-- the entry's components with only the last name changed: the component-level view of an
+extraction destination used by `C19_enclosed_stays_in_tmp` (Props/C19.lean); the destination the
+code really builds is `extractDest` below, on the stem STRING, and `C19_numbered_dest_is_renameLast`
+says when the two agree -/
 def zipEntryDest (tmp : Path) (entry : Path) (f : Bytes → Bytes) : Path := join tmp (renameLast f entry)
+
+def bInputs : Bytes := [105, 110, 112, 117, 116, 115]                 -- "inputs"
+
+/-- main.rs 398 (fix 232bfd3): `tmp_path.join("inputs")`, the `tmp_dir` handed to `producer()` -/
+def extractDir (tmp : Path) : Path := join tmp [.normal bInputs]
 
 /-- `Path::parent` of a destination, on components: drop the last component -/
 def parentC (p : Path) : Path := p.dropLast
@@ -206,6 +218,7 @@ inductive Kind where
   | hardlink     -- a new name at the destination
   | toolWrite    -- an external tool is told to write here (gcov's cwd, llvm-profdata -o)
   | removeFile   -- fs::remove_file: removes the name, never what a link points to
+  | removeTree   -- `TempDir::drop`: remove_dir_all of the temp dir (links are removed, not followed)
 deriving DecidableEq, Repr
 
 structure Dest where
@@ -217,14 +230,20 @@ deriving DecidableEq, Repr
 /-- one extraction (producer.rs `Archive::extract`): `fromZip = false` is a directory input -/
 structure Extract where
   fromZip : Bool
-  entry : Path                 -- the entry's components (`<stem>.<ext>` of the archive)
+  /-- the string `clean_path(name.with_extension(""))` of the listed name -/
+  stem : Bytes
   n : Nat                      -- 1-based archive number
   ext : Bytes                  -- gcno / gcda / profraw / profdata
   hardlinks : List Nat := []   -- further numbers under which the gcno is hard-linked
+deriving DecidableEq, Repr
 
-/-- what the run does to the last name: `<stem>` ↦ `<stem>_<n>.<ext>`; the caller gives the entry
-with its old extension already removed (`with_extension("")`) -/
+/-- `format!("{}_{}.{}", stem, n, ext)` -/
 def numbered (n : Nat) (ext : Bytes) (stem : Bytes) : Bytes := stem ++ 95 :: dec n ++ 46 :: ext
+
+/-- producer.rs 380/402/412/437/483: `tmp_dir.join(format!("{}_{}.{}", stem, n, ext))` with
+`tmp_dir = tmp/inputs` -/
+def extractDest (tmp : Path) (stem : Bytes) (n : Nat) (ext : Bytes) : Path :=
+  join (extractDir tmp) (toPath (numbered n ext stem))
 
 inductive OutKind where
   | none                                 -- stdout
@@ -248,9 +267,12 @@ structure RunInput where
   report : List (Bytes × Bool) := []
 
 def extractDests (tmp : Path) (e : Extract) : List Dest :=
-  let d := zipEntryDest tmp e.entry (numbered e.n e.ext)
+  let d := extractDest tmp e.stem e.n e.ext
   [⟨.mkdirAll, .tmp, parentC d⟩, ⟨if e.fromZip then .createFile else .symlink, .tmp, d⟩]
-    ++ e.hardlinks.map fun k => ⟨.hardlink, .tmp, zipEntryDest tmp e.entry (numbered k e.ext)⟩
+    ++ e.hardlinks.map fun k =>
+        -- `fs::hard_link` of the first gcno: of a symlink (directory input) it makes another link
+        -- to the same input file (`link(2)` does not follow), of an extracted file a second name
+        ⟨if e.fromZip then .hardlink else .symlink, .tmp, extractDest tmp e.stem k e.ext⟩
 
 def gcovDests (tmp : Path) (j : Nat × Bytes × Bytes) : List Dest :=
   match gcovOutPath (workerDir tmp j.1) j.2.1 j.2.2 with
@@ -282,10 +304,10 @@ def outDests (ri : RunInput) : List Dest :=
   | .file isDir name => [⟨.createFile, .out, outFileDest ri.out isDir name⟩]
   | .html bundled => htmlFixedDests ri.out bundled ++ ri.report.flatMap (htmlEntryDests ri.out)
 
-/-- everything a run creates, writes, links or deletes -/
-def dests (ri : RunInput) : List Dest :=
+/-- everything a run creates, writes, links or deletes before the temp dir is dropped -/
+def destsCore (ri : RunInput) : List Dest :=
   (match ri.log with | none => [] | some l => [⟨.createFile, .log, l⟩])
-    ++ [⟨.mkdir, .tmp, ri.tmp⟩]
+    ++ [⟨.mkdir, .tmp, ri.tmp⟩, ⟨.mkdir, .tmp, extractDir ri.tmp⟩]
     ++ (List.range ri.threads).map (fun i => ⟨.mkdir, .tmp, workerDir ri.tmp i⟩)
     ++ ri.extracts.flatMap (extractDests ri.tmp)
     ++ ri.gcovJobs.flatMap (gcovDests ri.tmp)
@@ -294,6 +316,11 @@ def dests (ri : RunInput) : List Dest :=
         [⟨.toolWrite, .tmp, profdataPath (workerDir ri.tmp i)⟩,
          ⟨.removeFile, .tmp, profdataPath (workerDir ri.tmp i)⟩])
     ++ outDests ri
+
+/-- everything a run that completes normally creates, writes, links or deletes, in an order the run
+can take: the LAST destination is the removal of the whole temp dir (`tmp_dir` of `main` is
+dropped after the report is written) -/
+def dests (ri : RunInput) : List Dest := destsCore ri ++ [⟨.removeTree, .tmp, ri.tmp⟩]
 
 def rootPath (ri : RunInput) : Root → Path
   | .tmp => ri.tmp
@@ -313,6 +340,19 @@ worker dir), `llvm-profdata -o <worker dir>/grcov.profdata`. `writeDests`/`linkD
 sets whose disjointness (after resolution) means no input is written through a link; that the
 kernel resolves a symlink only when it is opened, and that opening for reading alters nothing, is
 trusted. -/
+
+/-! ### what is left when the run is over -/
+
+/-- the resolved paths that exist because of the run after its destinations were carried out in
+order: a creating kind adds its path, `removeFile` takes that path away, `removeTree` everything at
+or below its path -/
+def aliveStep (acc : List (List (List Nat))) (d : Dest) : List (List (List Nat)) :=
+  match d.kind with
+  | .removeFile => acc.filter fun p => p != resolve d.path
+  | .removeTree => acc.filter fun p => !(resolve d.path).isPrefixOf p
+  | _ => acc ++ [resolve d.path]
+
+def alive (ds : List Dest) : List (List (List Nat)) := ds.foldl aliveStep []
 
 def isWrite : Kind → Bool
   | .createFile | .toolWrite => true
